@@ -34,7 +34,7 @@ def main():
     try:
         mod = importlib.import_module(f"checks.{prop.lower()}")
         import shutil
-        shutil.rmtree(os.path.join(ROOT, "replays", prop), ignore_errors=True)
+        shutil.rmtree(os.path.join(os.environ.get("VERIF_OUT") or ROOT, "replays", prop), ignore_errors=True)
         led = Ledger(prop, tier, seed)
         tasks = mod.tasks(tier, seed)
         if a.only:
